@@ -86,7 +86,7 @@ func ruleRPCResources(c *Ctx) {
 		sp.Classify = func(t *Tracer, fr *Frame, in ssa.Instruction) []Ev {
 			// a function that populates on its own is a root of its own: every root is decided separately
 			if call, ok := in.(ssa.CallInstruction); ok {
-				if sf := call.Common().StaticCallee(); sf != nil && sf.Parent() == nil && rootTops[sf] && sf != TopLevel(t.Root) {
+				if sf := call.Common().StaticCallee(); sf != nil && sf.Parent() == nil && rootTops[sf] && (sf != TopLevel(t.Root) || t.Root.Parent() != nil) {
 					return []Ev{{Kind: "nested-root", Stop: true}}
 				}
 			}
@@ -408,6 +408,22 @@ func ruleSentFlag(c *Ctx) {
 	fState := p.Field("server.Subscription.state")
 	unsub := []*types.Func{p.Method("server.ConnSubscriber.Unsubscribe"), p.Method("server.wsConn.Unsubscribe")}
 	isSent := p.Method("server.Subscription.IsSent")
+	procEvent := p.Method("server.Subscription.processEvent")
+	deleted := p.ConstInt("server.stateDeleted", 6)
+	// assumption made checkable: the cache's delete handler clears the subscriber set before the fan-out,
+	// so no event follows a delete event at a subscription
+	deleteIsLast := false
+	if hd := p.Fn("(*rescache.ResourceSubscription).handleEventDelete"); hd != nil {
+		fSubs := p.Field("rescache.ResourceSubscription.subs")
+		for _, g := range p.withHelpers(hd) {
+			for _, in := range instrsOf(g) {
+				if st, ok := isStoreTo(in, fSubs); ok && isNilConst(st.Val) {
+					deleteIsLast = true
+				}
+			}
+		}
+	}
+	c.note("PROV/sent-flag: delete is the last event of a subscription (handleEventDelete clears the subscriber set): %v", deleteIsLast)
 	// roots: top-level functions from which an indirect Unsubscribe with a computed `sent` is reached by inlining
 	cand := map[*ssa.Function]bool{}
 	for _, f := range p.Repo {
@@ -441,7 +457,14 @@ func ruleSentFlag(c *Ctx) {
 		sp := &Spec{}
 		sp.Classify = func(t *Tracer, fr *Frame, in ssa.Instruction) []Ev {
 			if st, ok := isStoreTo(in, fState); ok {
-				return []Ev{{Kind: "state=", Note: t.valKey(fr, st.Addr.(*ssa.FieldAddr).X, t.cur)}}
+				kind := "state="
+				if k, isC := constInt(st.Val); isC && k == deleted {
+					kind = "state=deleted"
+				}
+				return []Ev{{Kind: kind, Note: t.valKey(fr, st.Addr.(*ssa.FieldAddr).X, t.cur)}}
+			}
+			if _, ok := isCallTo(in, procEvent); ok {
+				return []Ev{{Kind: "next-event"}}
 			}
 			if call, ok := isCallTo(in, isSent); ok {
 				return []Ev{{Kind: "read-sent", Note: t.valKey(fr, callArgs(call.Common())[0], t.cur), Stop: true}}
@@ -484,7 +507,20 @@ func ruleSentFlag(c *Ctx) {
 						}
 					}
 					for j := 0; j < ri; j++ {
-						if path[j].Kind == "state=" && path[j].Note == e.Note {
+						if path[j].Kind == "state=deleted" && path[j].Note == e.Note && deleteIsLast {
+							// the delete event is the last event a subscription receives (the cache drops
+							// its subscribers before fanning it out): a later event is not a feasible path
+							later := false
+							for _, e3 := range path[j:ri] {
+								if e3.Kind == "next-event" {
+									later = true
+								}
+							}
+							if later {
+								continue
+							}
+						}
+						if strings.HasPrefix(path[j].Kind, "state=") && path[j].Note == e.Note {
 							bad = "the parent's state is overwritten before its sent-ness is read for releasing its references: children of a sent parent are released as 'not sent' and keep a too high indirectsent (a later resource set omits them): " + tr.FmtPath(path[:i+1])
 						}
 					}
